@@ -205,7 +205,7 @@ pub struct Stats {
 }
 
 /// Runs `lines` in one session with credential `cred`; admin may change the user's list mid-session.
-fn run_session(cred: &Cred, lines: &[(String, Option<Option<String>>)], dir: &str, v: &Verdicts, stats: &Mutex<Stats>) {
+fn run_session(cred: &Cred, lines: &[(String, Option<Option<String>>)], secondary: bool, dir: &str, v: &Verdicts, stats: &Mutex<Stats>) {
     let list0 = if let Cred::User(l) = cred { l.clone() } else { Some("rwix *".to_string()) };
     let mut fx = fixture(dir, &list0);
     let mut cur_cred = cred.clone();
@@ -214,6 +214,16 @@ fn run_session(cred: &Cred, lines: &[(String, Option<Option<String>>)], dir: &st
     s.drain();
     fx.node.pump();
     while fx.node.take_sup().is_some() {}
+    // the same session on a secondary: writes are forwarded to the primary over its link, which is observed here; a
+    // refused command must put nothing on it
+    let mut primary_link = if secondary {
+        let (tx, rx) = futures::channel::mpsc::channel::<String>(10_000);
+        fx.node.dbs.add_cluster_member(nundb::bo::ClusterMember { name: "10.1.1.1:3014".to_string(), role: ClusterRole::Primary, sender: Some(tx) });
+        fx.node.set_role(ClusterRole::Secoundary);
+        Some(rx)
+    } else {
+        None
+    };
     let mut trace = vec![];
     let mut cells = 0u64;
     let mut refused_n = 0u64;
@@ -258,6 +268,12 @@ fn run_session(cred: &Cred, lines: &[(String, Option<Option<String>>)], dir: &st
         while let Some(m) = fx.node.take_sup() {
             sup_msgs.push(m);
         }
+        let mut to_primary: Vec<String> = vec![];
+        if let Some(rx) = primary_link.as_mut() {
+            while let Ok(Some(m)) = rx.try_next() {
+                to_primary.push(m);
+            }
+        }
         let after = dump_all(&fx.node.dbs);
         cells += 1;
         let word = line.split(' ').next().unwrap_or("").to_string();
@@ -267,7 +283,7 @@ fn run_session(cred: &Cred, lines: &[(String, Option<Option<String>>)], dir: &st
             Cred::User(Some(_)) => "User(list)".to_string(),
             c => format!("{:?}", c),
         };
-        trace.push(json!({"line": line, "reply": reply.resp, "pushed": reply.pushed, "replication_queue": repl_msgs, "supervisor_queue": sup_msgs}));
+        trace.push(json!({"line": line, "reply": reply.resp, "pushed": reply.pushed, "replication_queue": repl_msgs, "supervisor_queue": sup_msgs, "sent_to_the_primary": to_primary}));
         // pushed lines without the rp acknowledgement
         let pushed: Vec<String> = reply.pushed.iter().filter(|p| !(word == "rp" && p.starts_with("ack "))).cloned().collect();
         let mut problem: Option<&str> = None;
@@ -283,7 +299,7 @@ fn run_session(cred: &Cred, lines: &[(String, Option<Option<String>>)], dir: &st
                     problem = Some("refused-command-returned-data");
                 } else if after != before {
                     problem = Some("refused-command-changed-state");
-                } else if !repl_msgs.is_empty() || !sup_msgs.is_empty() {
+                } else if !repl_msgs.is_empty() || !sup_msgs.is_empty() || !to_primary.is_empty() {
                     problem = Some("refused-command-emitted-cluster-message");
                 }
             }
@@ -315,7 +331,7 @@ fn run_session(cred: &Cred, lines: &[(String, Option<Option<String>>)], dir: &st
         }
         if let Some(p) = problem {
             let sub = if inner_word == "election" { format!("election {}", line.split(' ').nth(if word == "rp" { 3 } else { 1 }).unwrap_or("")) } else { inner_word.clone() };
-            let sig = json!({"check": "auth", "problem": p, "command": sub, "credential": cred_class, "via_rp": word == "rp"});
+            let sig = if secondary { json!({"check": "auth", "problem": p, "command": sub, "credential": cred_class, "via_rp": word == "rp", "node_role": "secondary"}) } else { json!({"check": "auth", "problem": p, "command": sub, "credential": cred_class, "via_rp": word == "rp"}) };
             let known = v.report(sig, json!({"credential": format!("{:?}", cur_cred), "line": line, "need": format!("{:?}", need), "trace": trace, "dump_before": before, "dump_after": after}));
             if !known {
                 break;
@@ -355,7 +371,7 @@ pub fn run(tier: &str) -> i32 {
     let mut ev = Evidence::new("C09", tier, "exploration");
     let stats = Mutex::new(Stats { cells: 0, refused_cells: 0, allowed_cells: 0, distinct: BTreeSet::new(), samples: vec![] });
     let cmds = commands();
-    let mut sessions: Vec<(Cred, Vec<(String, Option<Option<String>>)>)> = vec![];
+    let mut sessions: Vec<(Cred, Vec<(String, Option<Option<String>>)>, bool)> = vec![];
     let mut creds = vec![Cred::None, Cred::WrongPwd, Cred::WrongToken, Cred::DbToken, Cred::AdminDb];
     for l in perm_lists() {
         creds.push(Cred::User(l));
@@ -374,12 +390,16 @@ pub fn run(tier: &str) -> i32 {
             })
             .map(|l| (l.clone(), None))
             .collect();
-        sessions.push((c.clone(), lines));
+        sessions.push((c.clone(), lines.clone(), false));
+        // and on a node that is a secondary (administrator sessions excepted: their commands reconfigure the cluster)
+        if *c != Cred::AdminDb {
+            sessions.push((c.clone(), lines, true));
+        }
     }
     // failed use-db must not disturb an existing selection, for every kind of session
     for c in [Cred::DbToken, Cred::User(Some("rwix *".into())), Cred::AdminDb] {
         let lines = ["use-db db wrong", "get apple", "use-db db u wrong", "get apple", "use-db nodb tok", "get apple", "use-db db", "set apple 7", "use db nope", "get apple"];
-        sessions.push((c, lines.iter().map(|l| (l.to_string(), None)).collect()));
+        sessions.push((c, lines.iter().map(|l| (l.to_string(), None)).collect(), false));
     }
     let matrix_sessions = sessions.len();
     // permission changes in the middle of a session + (thorough) random sessions
@@ -394,7 +414,7 @@ pub fn run(tier: &str) -> i32 {
             let change = if rng.chance(1, 4) { Some(rng.pick(&lists).clone()) } else { None };
             lines.push((rng.pick(&cmds).clone(), change));
         }
-        sessions.push((Cred::User(start), lines));
+        sessions.push((Cred::User(start), lines, false));
     }
     let next = std::sync::atomic::AtomicUsize::new(0);
     std::thread::scope(|sc| {
@@ -409,7 +429,7 @@ pub fn run(tier: &str) -> i32 {
                     }
                     let _ = std::fs::remove_dir_all(&dir);
                     std::fs::create_dir_all(&dir).unwrap();
-                    run_session(&sessions[i].0, &sessions[i].1, &dir, v, stats);
+                    run_session(&sessions[i].0, &sessions[i].1, sessions[i].2, &dir, v, stats);
                 }
             });
         }
